@@ -391,7 +391,10 @@ class Check:
             print("VIOLATION property=%s replay=%s" % (self.pid, path), flush=True)
             log("  key=%s %s" % (key, what))
         elif os.environ.get("VERIF_ALLKEYS"):
+            # debugging aid: list (and keep) every violation, not only the first twenty
             log("  key=%s %s" % (key, what[:300]))
+            with open(path, "w") as fh:
+                json.dump(rec, fh, indent=1, default=str)
         self.violations.append({"key": key, "what": what, "path": path})
         return True
 
